@@ -284,6 +284,8 @@ func Spaces(tier string, forC06 bool, repo string) []Space {
 		k3 = 0 // canonical layout only: the point of this space in the quick tier is the statement sequences
 	}
 	sp = append(sp, StructSpace{Label: "struct3-small", Alpha: SmallStatements(), N: 3, K: k3, Ext: ext})
+	sp = append(sp, StructSpace{Label: "struct2-longlists", Alpha: LongListStatements(), N: 2, K: 1, Ext: ext})
+	sp = append(sp, StructSpace{Label: "struct3-longlists", Alpha: LongListStatements(), N: 3, K: 0, Ext: ext})
 	if forC06 {
 		return sp
 	}
